@@ -1,12 +1,14 @@
 package harbor
 
 import (
+	"bufio"
 	"crypto/sha256"
 	"encoding/hex"
 	"encoding/json"
 	"flag"
 	"fmt"
 	"os"
+	"sort"
 
 	"vh/sim"
 )
@@ -22,7 +24,7 @@ func configFor(k int, rng *sim.Rng) Config {
 	d := decs[k%len(decs)]
 	c := Config{DecC: d[0], DecA: d[1], DecS: d[2], DecU: d[3], DrawFee: draws[(k/2)%len(draws)], CloseFee: closes[(k/3)%len(closes)],
 		StabFee: stabs[k%len(stabs)], Batch: uint64(1 + rng.Intn(3)), Duration: uint64([]int{10, 60, 7, 3600}[rng.Intn(4)]),
-		Users: []string{"u1", "u2", "u3"}, FundColl: 20000, FundDebt: 3000}
+		Users: []string{"u1", "u2", "u3"}, FundColl: 20000, FundDebt: 3000, Bonus: []Frac{fr(0, 1), fr(1, 20), fr(1, 10)}[k%3]}
 	c.Interest = c.StabFee.Num > 0
 	return c
 }
@@ -78,8 +80,8 @@ func (w *World) randomAct(rng *sim.Rng) Act {
 	vs := w.vaultsView()
 	jit := func(x int64) int64 { return clampPos(x + int64(rng.Intn(3)) - 1) }
 	small := []int64{0, 1, 2, 3, 5, 7, 10, 13, 20, 50}
-	weights := []int{16, 6, 8, 10, 8, 4, 4, 3, 3, 3, 3, 5, 10, 6, 12, 1, 1}
-	names := []string{"Create", "Deposit", "Withdraw", "Draw", "Repay", "Close", "DepositDraw", "SCreate", "SDeposit", "SWithdraw", "InterestCalc", "Liquidate", "Bid", "Price", "Block", "Breaker", "Reserve"}
+	weights := []int{16, 6, 8, 10, 8, 4, 4, 3, 3, 3, 3, 5, 10, 6, 12, 1, 2, 2}
+	names := []string{"Create", "Deposit", "Withdraw", "Draw", "Repay", "Close", "DepositDraw", "SCreate", "SDeposit", "SWithdraw", "InterestCalc", "Liquidate", "Bid", "Price", "Block", "Breaker", "Reserve", "LiqExt"}
 	a := Act{A: names[rng.Weighted(weights)], U: u}
 	pickVault := func(own bool) (vaultView, bool) {
 		var c []vaultView
@@ -216,6 +218,10 @@ func (w *World) randomAct(rng *sim.Rng) Act {
 	case "Reserve":
 		a.D = "ust"
 		a.X = small[rng.Intn(len(small))]
+	case "LiqExt":
+		a.D = []string{"ucm", "uat"}[rng.Intn(2)]
+		a.X = []int64{10, 20, 50, 100}[rng.Intn(4)]
+		a.Y = []int64{5, 10, 20, 40, 100, 300}[rng.Intn(6)]
 	}
 	return a
 }
@@ -241,11 +247,22 @@ func Main(args []string) int {
 	steps := fs.Int("steps", 60, "steps per behaviour")
 	depth := fs.Int("depth", 0, "bounded exploration depth (0 = off)")
 	maxNodes := fs.Int("maxnodes", 4000, "node budget of the bounded exploration")
+	rootOut := fs.String("rootout", "", "write only the root node of the exploration fixture (Init of MC_Harbor) to this file and exit")
+	actsFile := fs.String("acts", "", "file with the action-instance set printed by MC_Harbor (T line); default: built-in set")
 	sweepFile := fs.String("sweep", "", "file with behaviours of MC_Sweep (T lines) to replay on real vaults")
 	sweepMax := fs.Int("sweepmax", 40, "max behaviours replayed from the sweep file")
 	fs.Parse(args)
 	lg := &sim.Log{}
 	rng := sim.NewRng(*seed)
+	if *rootOut != "" {
+		w0 := Setup(exploreConfig())
+		rootNode(lg, w0, "explore")
+		if err := lg.Write(*rootOut); err != nil {
+			fmt.Fprintln(os.Stderr, err)
+			return 2
+		}
+		return 0
+	}
 
 	for r := 0; r < *runs; r++ {
 		cfg := configFor(r+int(*seed), rng)
@@ -263,7 +280,10 @@ func Main(args []string) int {
 		}
 	}
 	if *depth > 0 {
-		explore(lg, rng, *seed, *depth, *maxNodes)
+		if err := explore(lg, rng, *seed, *depth, *maxNodes, *actsFile); err != nil {
+			fmt.Fprintln(os.Stderr, err)
+			return 2
+		}
 	}
 	if *sweepFile != "" {
 		n, err := sweepReplay(lg, *sweepFile, *sweepMax, *seed)
@@ -283,10 +303,60 @@ func Main(args []string) int {
 
 // explore: implementation-driven bounded exploration (DESIGN 3.3): a finite set of action instances,
 // all sequences up to `depth`, de-duplicated by the digest of the projected state, on CacheContext branches.
-func explore(lg *sim.Log, rng *sim.Rng, seed int64, depth, maxNodes int) {
-	cfg := Config{DecC: 1, DecA: 1, DecS: 1, DecU: 10, DrawFee: fr(1, 10), CloseFee: fr(0, 1), StabFee: fr(0, 1), Batch: 1, Duration: 10,
+func exploreConfig() Config {
+	return Config{Bonus: fr(0, 1), DecC: 1, DecA: 1, DecS: 1, DecU: 10, DrawFee: fr(1, 10), CloseFee: fr(0, 1), StabFee: fr(0, 1), Batch: 1, Duration: 10,
 		Users: []string{"u1", "u2"}, FundColl: 1000, FundDebt: 200}
-	w0 := Setup(cfg)
+}
+
+// modelActs reads the action-instance set printed by MC_Harbor.
+func modelActs(path string) ([]Act, error) {
+	f, err := os.Open(path)
+	if err != nil {
+		return nil, err
+	}
+	defer f.Close()
+	sc := bufio.NewScanner(f)
+	sc.Buffer(make([]byte, 1<<20), 1<<26)
+	for sc.Scan() {
+		js := sim.TLCJSON(sc.Text())
+		if js == "" {
+			continue
+		}
+		var doc struct {
+			Acts []struct {
+				A    string `json:"a"`
+				Args struct {
+					U string `json:"u"`
+					P uint64 `json:"p"`
+					V uint64 `json:"v"`
+					X int64  `json:"x"`
+					Y int64  `json:"y"`
+				} `json:"args"`
+			} `json:"acts"`
+			Prices []struct {
+				D  string `json:"d"`
+				Y  int64  `json:"y"`
+				On bool   `json:"on"`
+			} `json:"prices"`
+		}
+		if err := json.Unmarshal([]byte(js), &doc); err != nil {
+			return nil, err
+		}
+		var out []Act
+		for _, a := range doc.Acts {
+			out = append(out, Act{A: a.A, U: a.Args.U, P: a.Args.P, V: a.Args.V, X: a.Args.X, Y: a.Args.Y})
+		}
+		for _, p := range doc.Prices {
+			out = append(out, Act{A: "Price", D: p.D, Y: p.Y, On: p.On})
+		}
+		sort.Slice(out, func(i, j int) bool { return fmt.Sprint(out[i]) < fmt.Sprint(out[j]) })
+		return out, nil
+	}
+	return nil, fmt.Errorf("no action set in %s", path)
+}
+
+func explore(lg *sim.Log, rng *sim.Rng, seed int64, depth, maxNodes int, actsFile string) error {
+	w0 := Setup(exploreConfig())
 	run := fmt.Sprintf("explore:%d", seed)
 	root := rootNode(lg, w0, run)
 	p1, p3 := w0.Prods[0].ID, w0.Prods[2].ID
@@ -298,8 +368,16 @@ func explore(lg *sim.Log, rng *sim.Rng, seed int64, depth, maxNodes int) {
 		{A: "Draw", U: "u2", P: p1, V: 1, X: 1}, {A: "DepositDraw", U: "u1", P: p1, V: 1, X: 6},
 		{A: "SCreate", U: "u2", P: p3, X: 20}, {A: "SDeposit", U: "u1", P: p3, V: 1, X: 30}, {A: "SWithdraw", U: "u2", P: p3, V: 1, X: 2},
 		{A: "Price", D: "ucm", Y: 1, On: true}, {A: "Price", D: "ucm", Y: 2, On: true}, {A: "Price", D: "ucm", Y: 2, On: false},
-		{A: "Block", Y: 5}, {A: "Liquidate", U: "u2", V: 1}, {A: "Bid", U: "u2", V: 1, D: "ust", X: 20}, {A: "Bid", U: "u1", V: 1, D: "ust", X: 100},
 	}
+	if actsFile != "" {
+		ma, err := modelActs(actsFile)
+		if err != nil {
+			return err
+		}
+		acts = ma
+	}
+	// beyond the vault model: block hooks, liquidation and bids are explored on the same branches (monitored, Conf_Block)
+	acts = append(acts, Act{A: "Block", Y: 5}, Act{A: "Liquidate", U: "u2", V: 1}, Act{A: "Bid", U: "u2", V: 1, D: "ust", X: 20}, Act{A: "Bid", U: "u1", V: 1, D: "ust", X: 100})
 	seen := map[string]bool{digestOf(w0.Project()): true}
 	type item struct {
 		w    *World
@@ -330,4 +408,5 @@ func explore(lg *sim.Log, rng *sim.Rng, seed int64, depth, maxNodes int) {
 		}
 	}
 	_ = rng
+	return nil
 }
